@@ -78,7 +78,7 @@ let eval (fn : string) (a : string list) : string list =
   | "vsn", base :: bufsize :: fmt :: _k :: args ->
     let n = i bufsize in
     (match Opt.vsnprintf (n_of_string base) (mkbuf (fill n)) (n_of_string bufsize) (unhex fmt) (L.map parse_arg args) with
-     | Some ((b, ret), _) -> [string_of_n ret; hex b.Opt.bdata; b01 b.Opt.fault]
+     | Some (b, ret) -> [string_of_n ret; hex b.Opt.bdata; b01 b.Opt.fault]
      | None -> ["FUEL"])
   | "outbuf", startlen :: _k :: msgs ->
     let maxd = int_of_n Opt.coq_MAX_DELAY in
